@@ -17,11 +17,13 @@ use vcore::Violation;
 pub struct Plan {
     /// (index into GRID, index into POLICIES); the FIRST entry is the reference query
     pub queries: Vec<(usize, usize)>,
-    /// compare the triple / id / slot entry points on the first case of every batch
-    pub entry_points: bool,
+    /// compare the triple / id / slot entry points on the first case of every k-th batch (0 = never)
+    pub entry_points_every: usize,
     /// re-project the previous batch after the next one was recorded
     pub restab: bool,
     pub batch_cases: usize,
+    /// start a fresh Nexus after this many batches (the batch query's cost grows with the number of subjects)
+    pub rotate_batches: usize,
 }
 
 #[derive(Default)]
@@ -37,6 +39,9 @@ pub struct Outcome {
     /// reference-query summary of the first history of every group (v0 projection)
     pub summaries: Vec<(Case, Summary)>,
     pub stopped_early: bool,
+    pub worlds: u64,
+    pub statements: u64,
+    pub queries: u64,
 }
 
 fn kind(functional: bool) -> &'static str {
@@ -99,6 +104,7 @@ fn check_batch(
     cases: &[Case],
     recs: &[Recorded],
     plan: &Plan,
+    with_entry_points: bool,
     out: &mut Outcome,
 ) -> (Vec<Option<Digest>>, BTreeMap<String, Obs>) {
     let functional = cases[0].functional;
@@ -142,7 +148,7 @@ fn check_batch(
             reference_obs = seen;
         }
     }
-    if plan.entry_points && !cases.is_empty() {
+    if with_entry_points && !cases.is_empty() {
         let (at, pol) = plan.queries[0];
         entry_points(world, &cases[0], &recs[0], at, pol, &reference_obs, out, cases);
     }
@@ -203,11 +209,29 @@ fn entry_points(
 }
 
 /// Records and checks `groups` (each: histories that must agree) on `world`.
-pub fn run_groups(world: &mut World, groups: &[Vec<Case>], plan: &Plan, deadline: Option<Instant>) -> Outcome {
+pub fn run_groups(tag: &str, groups: &[Vec<Case>], plan: &Plan, deadline: Option<Instant>) -> Outcome {
     let mut out = Outcome::default();
     let mut previous: Option<Pending> = None;
     let mut i = 0;
+    let mut world = World::new(tag);
+    out.worlds = 1;
+    let mut batches_here = 0usize;
+    let mut batch_no = 0usize;
+    let retire = |w: &World, out: &mut Outcome| {
+        out.statements += w.statements;
+        out.queries += w.queries;
+    };
     while i < groups.len() {
+        if batches_here >= plan.rotate_batches.max(1) {
+            retire(&world, &mut out);
+            world = World::new(&format!("{tag}w{}", out.worlds));
+            out.worlds += 1;
+            batches_here = 0;
+            previous = None;
+        }
+        batches_here += 1;
+        batch_no += 1;
+        let world = &mut world;
         if deadline.map(|d| Instant::now() >= d).unwrap_or(false) {
             out.stopped_early = true;
             break;
@@ -224,7 +248,8 @@ pub fn run_groups(world: &mut World, groups: &[Vec<Case>], plan: &Plan, deadline
         let (batch, recs) = world.record(&cases);
         out.histories += cases.len() as u64;
         out.groups += spans.len() as u64;
-        let (reference, seen) = check_batch(world, &batch, &cases, &recs, plan, &mut out);
+        let with_entry_points = plan.entry_points_every > 0 && (batch_no - 1) % plan.entry_points_every == 0;
+        let (reference, seen) = check_batch(world, &batch, &cases, &recs, plan, with_entry_points, &mut out);
         let (at, pol) = plan.queries[0];
         for (start, len) in spans {
             let Some(first) = &reference[start] else { continue };
@@ -260,6 +285,7 @@ pub fn run_groups(world: &mut World, groups: &[Vec<Case>], plan: &Plan, deadline
             });
         }
     }
+    retire(&world, &mut out);
     out
 }
 
@@ -273,15 +299,15 @@ pub fn replay(doc: &Value) -> Vec<Violation> {
     let relation = r["relation"].as_str().unwrap_or("single");
     let plan = Plan {
         queries: vec![(at, pol)],
-        entry_points: r["entry_points"].as_bool().unwrap_or(false),
+        entry_points_every: r["entry_points"].as_bool().unwrap_or(false) as usize,
         restab: relation == "restab",
         batch_cases: 10_000,
+        rotate_batches: usize::MAX,
     };
-    let mut world = World::new("replay");
     let mut found = Vec::new();
     match relation {
         "repetition" | "monotone" => {
-            let out = run_groups(&mut world, &[vec![cases[0].clone()], vec![cases[1].clone()]], &plan, None);
+            let out = run_groups("replay", &[vec![cases[0].clone()], vec![cases[1].clone()]], &plan, None);
             found.extend(out.violations);
             if out.summaries.len() == 2 {
                 let (before, after) = (&out.summaries[0], &out.summaries[1]);
@@ -298,15 +324,19 @@ pub fn replay(doc: &Value) -> Vec<Violation> {
             };
             let mut groups = a;
             groups.extend(b);
-            found.extend(run_groups(&mut world, &groups, &plan, None).violations);
+            found.extend(run_groups("replay", &groups, &plan, None).violations);
         }
         _ => {
             // "single" / "orders": the cases as one group, alone
-            found.extend(run_groups(&mut world, &[cases.clone()], &plan, None).violations);
+            found.extend(run_groups("replay", &[cases.clone()], &plan, None).violations);
             if found.is_empty() && !batch.is_empty() {
                 // not reproduced alone: in the company it was first seen in
                 let groups: Vec<Vec<Case>> = batch.iter().map(|c| vec![c.clone()]).collect();
-                found.extend(run_groups(&mut world, &groups, &plan, None).violations);
+                let plan = Plan {
+                    batch_cases: batch.len(),
+                    ..plan
+                };
+                found.extend(run_groups("replay", &groups, &plan, None).violations);
             }
         }
     }
